@@ -5,13 +5,21 @@ Implementation under test (real code, in-process, single-threaded):
     workflowAttributes (maxRestarts / restartHookFile / restartHookOn / repeatInterval), backend local or simulator,
     real hook modules written into the package's `hooks/` directory;
   * the real ComponentState + Engine / RepeatingEngine created by tests.utils.new_controller and the real Controller;
-  * per task exit: real `Engine._setExitReason(reason)` (RepeatingEngine: the ivars its real `exitReason()` reads),
-    then the real `Controller._restartComponent(component)` (mode fin=false) or the real
+  * Engine: the REAL `Engine.run` executes for the first launch and for every launch made by `Engine.restart`
+    (InitPerformanceInfo, LaunchTask, SetLaunchTime, Wait, FinalisePerformanceInfo, HandleTaskExit ->
+    `_setExitReason`): the task generator is a harness function that either returns a fake Task object whose exit
+    reason is scripted (the task is created fine and then REPORTS e.g. SubmissionFailed) or raises
+    OSError / JobLaunchError / another exception (no Task object); the launch is fired by the harness through the
+    start observable handed to the real `run`.  When no launch is pending (the previous restart was refused, or
+    `run()` raised) the exit is injected through the real `Engine._setExitReason(reason)`.
+    RepeatingEngine: the ivars its real `exitReason()` reads are set.
+  * then the real `Controller._restartComponent(component)` (mode fin=false) or the real
     `Controller.postMortemCheck(state, component)` (mode fin=true: real TransitionComponentToFinalState,
     ComponentState.finish, Engine.shutdown).
-  Intercepted: `engine.run` (instance attribute: counts invocations, may raise on request), `threading.Thread` inside
-  engine.py (counts restart threads of RepeatingEngine, may raise), `time.sleep` inside control.py, the answer of
-  `MonitorExceptionTracker.isSystemStable`, RxPY pools/interval (synchronous stand-ins).
+  Intercepted: `engine.run` (instance attribute: counts invocations, may raise on request, otherwise calls the real
+  method with a harness-owned start observable), `op.delay` inside engine.py (the launch delay), `threading.Thread`
+  inside engine.py (counts restart threads of RepeatingEngine, may raise), `time.sleep` inside control.py, the
+  answer of `MonitorExceptionTracker.isSystemStable`, RxPY pools/interval (synchronous stand-ins).
 Model: lean/St4sd/Model/Restart.lean via drv-c12.  Theorems: lean/St4sd/Props/C12.lean.
 """
 from __future__ import annotations
@@ -113,6 +121,20 @@ def _setup():
             return getattr(real_threading, k)
 
     E.threading = FakeThreading()
+
+    class OpProxy:
+        """reactivex.operators as engine.py sees it: the launch delay is not waited for"""
+
+        def __init__(self, real):
+            self._real = real
+
+        def delay(self, *a, **k):
+            return lambda source: source
+
+        def __getattr__(self, k):
+            return getattr(self._real, k)
+
+    E.op = OpProxy(E.op)
     tracker = M.MonitorExceptionTracker.defaultTracker()
     tracker.isSystemStable = lambda *a, **k: _S.get("stable", True)
     tracker.printStatus = lambda *a, **k: None
@@ -141,6 +163,31 @@ class StubProc:
         if k.startswith("__"):
             raise AttributeError(k)
         return None
+
+
+class FakeTask(StubProc):
+    """what the task generator returns when the backend accepts the task: it has already finished when wait() is
+    called and reports the scripted exit reason"""
+
+    def wait(self):
+        import datetime
+        t0 = datetime.datetime.now()
+        while datetime.datetime.now() == t0:      # task-run-time is a divisor in FinalisePerformanceInfo
+            pass
+        return self.returncode
+
+    def kill(self):
+        pass
+
+    def terminate(self):
+        pass
+
+
+LAUNCHES = ["task", "submitError:os", "submitError:launch", "otherError"]
+
+
+def launch_kind(inp):
+    return (inp.get("launch") or "task").split(":")[0]
 
 
 def flowir_for(cfg):
@@ -203,24 +250,51 @@ def impl_run(case, root):
         if type(eng) is not want:
             return {"error": "engine-type:" + type(eng).__name__}
         hook_on = list(eng.job.workflowAttributes.get("restartHookOn", []))
-        runs = {"n": 0}
-        flags = {"run_fails": False}
+        runs = {"n": 0, "initial": 0, "created": 0}
+        flags = {"run_fails": False, "initial": False}
+        pending = []            # start observables of launches the real run() is waiting for
+        script = []             # what the next call of the task generator does
+        import reactivex.subject
+        import experiment.runtime.errors as RE
 
-        def fake_run(*a, **k):
-            runs["n"] += 1
-            eng._runCalled = True
+        def generator(job, *a, **k):
+            kind, reason = script.pop(0)
+            if kind == "submitError:os":
+                raise OSError("working directory vanished")
+            if kind == "submitError:launch":
+                raise RE.JobLaunchError("backend refused the task", None)
+            if kind == "otherError":
+                raise RuntimeError("task generator is broken")
+            runs["created"] += 1
+            return FakeTask(reason)
+
+        def run_wrapper(*a, **k):
+            if flags["initial"]:
+                runs["initial"] += 1
+            else:
+                runs["n"] += 1
             if flags["run_fails"]:
+                eng._runCalled = True
                 raise RuntimeError("backend cannot launch")
+            if cfg["repeating"]:
+                eng._runCalled = True
+                return
+            start = reactivex.subject.Subject()
+            E.Engine.run(eng, startObservable=start)      # the real method
+            pending.append(start)
 
-        eng.run = fake_run
+        eng.run = run_wrapper
+        if not cfg["repeating"]:
+            eng.taskGenerator = generator
         S["threads"] = 0
         events = []
+        launches = []
         control = os.path.join(eng.job.directory, "CONTROL")
-        for inp in case["inps"]:
+        for step_no, inp in enumerate(case["inps"]):
             reason = inp["reason"]
             os.environ["C12_HOOK"] = inp["hook"]
             os.environ["C12_HOOK_VARIANT"] = str(inp.get("variant", 0))
-            flags["run_fails"] = bool(inp["runFails"])
+            flags["run_fails"] = False
             S["thread_fails"] = bool(inp["runFails"])
             S["stable"] = bool(inp["stable"])
             if inp["control"]:
@@ -228,14 +302,37 @@ def impl_run(case, root):
                     fh.write("dlmeso\nsteps 10\nfinish\n")
             elif os.path.exists(control):
                 os.remove(control)
-            # the task exits
+            # the launch and the task exit
             if cfg["repeating"]:
                 eng.cancelMonitorEvent.set()
                 eng.process = StubProc(reason)
                 eng.kernelCompleted = True
                 eng.lastExecution = False
+                launches.append("none")
             else:
-                eng._setExitReason(reason)
+                if step_no == 0 and not case.get("noInitialRun"):
+                    flags["initial"] = True
+                    try:
+                        eng.run()                           # first launch of the component's task
+                    finally:
+                        flags["initial"] = False
+                if pending:
+                    start = pending.pop(0)
+                    del pending[:]
+                    script[:] = [(inp.get("launch") or "task", reason)]
+                    start.on_next(0)                        # LaunchTask .. HandleTaskExit run synchronously
+                    launches.append(launch_kind(inp) if not script else "not-launched")
+                    del script[:]
+                else:
+                    if eng.process is not None:
+                        eng.process = FakeTask(reason)      # _setExitReason prefers the task's own exit reason
+                    eng._setExitReason(reason)
+                    launches.append("none")
+            if not cfg["repeating"] and eng.exitReason() != reason:
+                return {"error": "exit-reason-not-delivered", "detail": {"step": step_no, "wanted": reason,
+                                                                         "engine": eng.exitReason(),
+                                                                         "launch": launches[-1]}}
+            flags["run_fails"] = bool(inp["runFails"])
             before = runs["n"] + S["threads"]
             try:
                 if case["fin"]:
@@ -261,9 +358,9 @@ def impl_run(case, root):
             ev = {"code": code, "restarts": int(eng.restarts), "resub": int(eng.resubmissionAttempts()),
                   "runs": runs["n"] + S["threads"], "shutdown": bool(eng.isShutdown),
                   "started": runs["n"] + S["threads"] - before, "state": str(comp.state),
-                  "finishCalled": bool(comp.finishCalled)}
+                  "finishCalled": bool(comp.finishCalled), "launch": launches[-1], "created": runs["created"]}
             events.append(ev)
-        return {"events": events, "hookOn": hook_on}
+        return {"events": events, "hookOn": hook_on, "launches": launches}
     finally:
         shutil.rmtree(tmp, ignore_errors=True)
 
@@ -385,6 +482,7 @@ def gen_inps(rng, cfg, n, fin):
     style = rng.choice(["listed", "listed", "submission", "submission-success", "any", "mixed", "unlisted-unstable"])
     unlisted = [r for r in REASONS if r not in listed] or REASONS
     good_hooks = ["ctx:RestartContextRestartPossible", "yes", "junk", "ioError", "ctx:RestartContextHookNotAvailable"]
+    lstyle = rng.choice([0.0, 0.0, 0.3, 0.5, 1.0])   # share of failed submissions that are raised by the task generator
     inps = []
     for _ in range(n):
         if style == "listed" and listed:
@@ -403,7 +501,15 @@ def gen_inps(rng, cfg, n, fin):
             # a RepeatingEngine's own exitReason() only ever reports these two
             reason = "ResourceExhausted" if reason in ("ResourceExhausted", "SubmissionFailed", "KnownIssue") else "Success"
         hook = rng.choice(good_hooks) if rng.random() < (0.8 if fin else 0.6) else rng.choice(HOOKS)
-        inps.append({"reason": reason, "hook": hook, "variant": rng.randrange(12),
+        # how the launch before this exit goes: the backend accepts the task, which later reports `reason` (also
+        # SubmissionFailed: image pull failures, scheduler TERM codes), or the task generator raises
+        launch = "task"
+        k = rng.random()
+        if reason == "SubmissionFailed" and k < lstyle:
+            launch = rng.choice(["submitError:os", "submitError:launch"])
+        elif reason == "UnknownIssue" and k < 0.3:
+            launch = "otherError"
+        inps.append({"reason": reason, "hook": hook, "variant": rng.randrange(12), "launch": launch,
                      "control": rng.random() < 0.4, "runFails": (not fin) and rng.random() < 0.08,
                      "stable": rng.random() < (0.25 if style == "unlisted-unstable" else 0.7)})
     return inps
@@ -415,8 +521,10 @@ def gen_case(rng, cfg, fin, maxlen):
     return {"cfg": cfg, "fin": fin, "explicit": rng.random() < 0.3, "inps": gen_inps(rng, cfg, n, fin)}
 
 
-def _inp(reason, hook="ctx:RestartContextRestartPossible", control=False, run_fails=False, stable=True, variant=0):
-    return {"reason": reason, "hook": hook, "variant": variant, "control": control, "runFails": run_fails, "stable": stable}
+def _inp(reason, hook="ctx:RestartContextRestartPossible", control=False, run_fails=False, stable=True, variant=0,
+         launch="task"):
+    return {"reason": reason, "hook": hook, "variant": variant, "control": control, "runFails": run_fails,
+            "stable": stable, "launch": launch}
 
 
 def _cfg(maxRestarts=None, hookFile=None, hookOn=None, disk="scripted", backend="local", sim_restart=None, repeating=False):
@@ -436,6 +544,15 @@ def corpus_cases():
     # cap reached without listing SubmissionFailed, reset by Success
     cs.append({"cfg": _cfg(hookOn=["KnownIssue"]), "fin": False, "explicit": False,
                "inps": [_inp("SubmissionFailed")] * 7 + [_inp("Success")] + [_inp("SubmissionFailed")] * 6})
+    # every task is created fine and then REPORTS SubmissionFailed; the real controller finalises at the sixth
+    cs.append({"cfg": _cfg(hookOn=["KnownIssue"]), "fin": True, "explicit": False,
+               "inps": [_inp("SubmissionFailed") for _ in range(8)]})
+    # created-then-failed and generator-raised failed submissions alternate, other failures in between
+    cs.append({"cfg": _cfg(hookOn=["KnownIssue"], maxRestarts=-1), "fin": False, "explicit": False,
+               "inps": [_inp("SubmissionFailed"), _inp("SubmissionFailed", launch="submitError:os"),
+                        _inp("KnownIssue"), _inp("SubmissionFailed", launch="submitError:launch"),
+                        _inp("SubmissionFailed"), _inp("UnknownIssue", launch="otherError"), _inp("SubmissionFailed"),
+                        _inp("SubmissionFailed"), _inp("Success"), _inp("SubmissionFailed")]})
     # default maximum, hook always says possible
     cs.append({"cfg": _cfg(hookOn=["KnownIssue"]), "fin": False, "explicit": False, "inps": [_inp("KnownIssue")] * 6})
     # counters updated on refused restarts
@@ -487,6 +604,7 @@ def tags_for(case, out):
         for inp, ev in zip(case["inps"], out["events"]):
             t.append("code:" + str(ev["code"]))
             t.append("reason:" + inp["reason"])
+            t.append("launch:" + ev["launch"] + ("/SubmissionFailed" if inp["reason"] == "SubmissionFailed" else ""))
     return t
 
 
@@ -500,7 +618,8 @@ def check_cases(ctx, cases, root, n_corpus=0):
             if "events" in o:
                 reqs.append({"op": "exec", "old": False, "fin": bool(c["fin"]), "cfg": model_cfg(c["cfg"], o["hookOn"]),
                              "inps": [{"reason": i["reason"], "hook": i["hook"], "control": bool(i["control"]),
-                                       "runFails": bool(i["runFails"]), "stable": bool(i["stable"])} for i in c["inps"]]})
+                                       "runFails": bool(i["runFails"]), "stable": bool(i["stable"]), "launch": la}
+                                      for i, la in zip(c["inps"], o["launches"])]})
                 idx.append(k)
         answers = ctx.model(reqs)
         mouts = dict(zip(idx, answers))
@@ -567,6 +686,8 @@ def run(ctx):
         rng = ctx.rng
         quick = ctx.tier == "quick"
         cases = corpus_cases() + load_corpus_dir()
+        if os.environ.get("C12_NO_CORPUS"):        # switch only for self-tests of the generator
+            cases = []
         n_corpus = len(cases)
         ncfg = 260 if quick else 2600
         for _ in range(ncfg):
